@@ -116,7 +116,7 @@ def check(ctx):
 
     for p3 in returns(it3.run_function(qf, args={"cls": ClassV(P.cls(FP + "FlowPropertiesTwoPhase"))})):
         for e in p3.events:
-            if e.kind != "int_call" or e.data["callee"] != qa:
+            if e.kind != "int_call" or e.data["callee"] not in (qa, q) or "pvt" not in e.data["args"]:
                 continue
             tbl = e.data["args"].get("pvt")
             if not isinstance(tbl, DictV):
